@@ -68,7 +68,7 @@ Base == [ nb |-> T0, na |-> T1, serial |-> Given(<<1, 2, 3>>), dn |-> DnOne, san
 
 Case(grp, p, self, subjAlg, signAlg, issuerKid, pubSrc) ==
   [grp |-> grp, params |-> p, self |-> self, subjAlg |-> subjAlg, signAlg |-> signAlg,
-   issuerKid |-> issuerKid, issuerDn |-> IssuerDn, pubSrc |-> pubSrc]
+   issuerKid |-> issuerKid, issuerDn |-> IssuerDn, pubSrc |-> pubSrc, hash2 |-> <<>>]
 
 Quick == Tier = "quick"
 Bool == {TRUE, FALSE}
@@ -156,16 +156,24 @@ Algs == {"ed25519", "ecdsa-p256-sha256", "ecdsa-p384-sha384", "rsa-sha256", "rsa
 AlgCases == { Case("alg", [Bg2 EXCEPT !.isCa = IF self THEN CaU ELSE NoCa], self, sa, ia, Kid("sha256"), "keypair") :
                 sa \in Algs, ia \in Algs, self \in Bool }
 
-Cases == PresenceCases \cup KuCases \cup PathLenCases \cup PrefixCases \cup SanCases \cup NcCases \cup DnCases
+(* automatic serial: classes of the first two octets of SHA-256(subject public key); the harness searches *)
+(* a public key whose digest starts with exactly these two octets                                       *)
+HashPrefixes == { <<0, 0>>, <<0, 1>>, <<0, 127>>, <<0, 128>>, <<0, 255>>, <<1, 0>>, <<1, 200>>, <<127, 255>>, <<128, 0>>, <<128, 128>>,
+                  <<129, 5>>, <<255, 0>>, <<255, 255>> }
+AutoSerialCases == { [Case("autoserial", [bg EXCEPT !.serial = Auto], FALSE, "ed25519", "ed25519", Kid("sha256"), "fakepub") EXCEPT !.hash2 = h] :
+                       h \in HashPrefixes, bg \in Bgs }
+
+Cases == AutoSerialCases \cup PresenceCases \cup KuCases \cup PathLenCases \cup PrefixCases \cup SanCases \cup NcCases \cup DnCases
          \cup KidCases \cup SerialCases \cup EkuCases \cup CustomCases \cup AlgCases
 
 (* ---- abstract keys for the model (the harness substitutes real keys and real digests) ---- *)
-KeyRec(h, alg, n) == [h |-> h, alg |-> alg, spki |-> "spki-" \o h, sha256 |-> <<1, n>>, sha384 |-> <<2, n>>,
-                      sha512 |-> <<3, n>>, rawSha256 |-> <<200 + n, 0, 7, 7, 7, 7, 7, 7, 7, 7, 7, 7, 7, 7, 7, 7, 7, 7, 7, 7>>]
+Filler18 == <<7, 7, 7, 7, 7, 7, 7, 7, 7, 7, 7, 7, 7, 7, 7, 7, 7, 9>>
+KeyRec(h, alg, n, hash2) == [h |-> h, alg |-> alg, spki |-> "spki-" \o h, sha256 |-> <<1, n>>, sha384 |-> <<2, n>>,
+                             sha512 |-> <<3, n>>, rawSha256 |-> (IF hash2 = <<>> THEN <<200 + n, 0>> ELSE hash2) \o Filler18]
 
 Args(k) ==
-  LET sk == KeyRec("kS", k.subjAlg, 1)
-      ik == IF k.self THEN sk ELSE KeyRec("kI", k.signAlg, 2)
+  LET sk == KeyRec("kS", k.subjAlg, 1, k.hash2)
+      ik == IF k.self THEN sk ELSE KeyRec("kI", k.signAlg, 2, <<>>)
   IN [ params |-> k.params, self |-> k.self, subjectKey |-> sk, signerKey |-> ik,
        issuer |-> IF k.self THEN [dn |-> k.params.dn, kid |-> k.params.kid, subjectRaw |-> ""]
                   ELSE [dn |-> k.issuerDn, kid |-> k.issuerKid, subjectRaw |-> "issuer-subject-raw"],
